@@ -187,6 +187,8 @@ var c07IllTyped = []string{
 	"num=abc", "num=1.5", "num=2147483648", "num=", "num=0x10", "seq=9223372036854775808", "nums=1&nums=x", "pv.uint32_value=-1", "pv.uint64_value=18446744073709551616",
 	"pv.bool_value=yes", "pv.bool_value=1", "pv.double_value=abc", "pv.double_value=1,5", "pv.float_value=--1", "pv.enum_value=NOPE", "pv.enum_value=1.5", "pv.bytes_value=%21%21%21", "pv.timestamp=yesterday",
 	"pv.timestamp=1970-01-01", "pv.duration=5", "pv.duration=5m", "pv.int32_value_wrapper=x", "pv.bool_value_wrapper=maybe", "child=1", "pv.nested=1", "pv.string_map=1", "st=1",
+	// the JSON literal null is not a number, a boolean or an enum value; a string parameter is text, and text is UTF-8
+	"num=null", "pv.bool_value=null", "pv.uint64_value=null", "pv.double_value=null", "nums=1&nums=null", "pv.string_value=%FF", "extra_text=a%C3", "tags=ok&tags=%80",
 }
 
 func c07REST(method, target, ct string, body []byte) *drive.ReqSpec {
